@@ -504,6 +504,16 @@ func (r *PipelineRunner) JobCompleted(id uuid.UUID, err error) {
 	if errors.Is(err, context.Canceled) {
 		job.Canceled = true
 	}
+	// The scheduler also returns without error if it was canceled while no task was running (between two tasks):
+	// the job is canceled and not successful if there are tasks which were never started
+	if err == nil {
+		for _, jt := range job.Tasks {
+			if jt.Status == toStatus(scheduler.StatusWaiting) {
+				job.Canceled = true
+				break
+			}
+		}
+	}
 
 	pipeline := job.Pipeline
 	log.
